@@ -16,6 +16,8 @@ func configs(quick bool) []tsssig.Cfg {
 			{N: 3, T: 2, SigningPeriod: 1, MaxSigningAttempt: 2, MaxDESize: 4, InitDE: 2, MaxReq: 2, Depth: 8, Events: ev, FeePerSigner: 10},
 			{N: 3, T: 2, SigningPeriod: 2, MaxSigningAttempt: 2, MaxDESize: 4, InitDE: 1, MaxReq: 2, Depth: 8, Events: ev, FeePerSigner: 10},
 			{N: 3, T: 2, SigningPeriod: 1, MaxSigningAttempt: 1, MaxDESize: 4, InitDE: 2, MaxReq: 2, Depth: 7, Events: ev, FeePerSigner: 10},
+			// signing_period reduced / restored by governance while attempts are in flight
+			{N: 3, T: 2, SigningPeriod: 3, MaxSigningAttempt: 2, MaxDESize: 4, InitDE: 3, MaxReq: 2, Depth: 8, Events: []string{"req", "sig", "period", "block"}, FeePerSigner: 10},
 		}
 	}
 	var out []tsssig.Cfg
@@ -26,6 +28,7 @@ func configs(quick bool) []tsssig.Cfg {
 			}
 		}
 	}
+	out = append(out, tsssig.Cfg{N: 3, T: 2, SigningPeriod: 3, MaxSigningAttempt: 3, MaxDESize: 5, InitDE: 4, MaxReq: 3, Depth: 10, Events: []string{"req", "sig", "period", "act", "block"}, FeePerSigner: 10})
 	out = append(out, tsssig.Cfg{N: 3, T: 3, SigningPeriod: 1, MaxSigningAttempt: 2, MaxDESize: 4, InitDE: 2, MaxReq: 2, Depth: 10, Events: ev, FeePerSigner: 10},
 		tsssig.Cfg{N: 2, T: 1, SigningPeriod: 2, MaxSigningAttempt: 3, MaxDESize: 3, InitDE: 2, MaxReq: 3, Depth: 10, Events: ev, FeePerSigner: 10})
 	return out
@@ -35,13 +38,13 @@ func init() {
 	engine.Register(&engine.Check{
 		ID: "C10",
 		Run: func(r *engine.Run) {
-			r.Bound = "group of 3 (t=2; thorough also t=3 and n=2,t=1) installed by a real DKG; <=2/3 signings in flight; per-block choices of which assigned member submits, tops up one nonce, re-activates; signing_period in {1,2}, max_signing_attempt in {1,2,3}; depth 7-8 (quick) / 10 (thorough)"
+			r.Bound = "group of 3 (t=2; thorough also t=3 and n=2,t=1) installed by a real DKG; <=2/3 signings in flight; per-block choices of which assigned member submits, tops up one nonce, re-activates; signing_period in {1,2} (and 3 reduced to 1 / restored by governance in flight), max_signing_attempt in {1,2,3}; depth 7-8 (quick) / 10 (thorough)"
 			r.Assumptions = []string{
 				"committee choice is read back from the stored attempt (selection is C09's subject) and only checked for size, distinctness and eligibility",
 				"partial signatures are honest (bad shares are C03's subject)",
 				"block rewards to members switched off (bandtss RewardPercentage=0) so balances isolate signing fees",
 			}
-			r.Required = []string{"signing_success", "signing_failed", "retry", "fallen:max-attempts", "fallen:no-members", "act:ok", "sig-late:tss/28"}
+			r.Required = []string{"signing_success", "signing_failed", "retry", "fallen:max-attempts", "fallen:no-members", "act:ok", "sig-late:tss/28", "period:ok", "expiry-deferred-behind-earlier-attempt"}
 			tsssig.Run(r, "C10", configs(r.Quick()), 5*time.Minute, 45*time.Minute)
 		},
 		Replay: tsssig.Replay,
